@@ -618,6 +618,9 @@ func (r *Run) hook(kind, site int) bool {
 		}
 	}
 	if kind == kStep {
+		if DebugSteps != nil {
+			*DebugSteps = append(*DebugSteps, t.Name+" "+siteStringNoFmt(site)+" ret="+itoa(btoi(r.Returned.Load()))+" dec="+itoa(r.decisions))
+		}
 		t.Ops++
 		r.totalOps.Add(1)
 		if r.Returned.Load() {
@@ -1041,8 +1044,12 @@ func (r *Run) describeBlocked() string {
 	n := int(r.ntasks.Load())
 	for i := 0; i < n; i++ {
 		t := r.tasks[i]
-		if t.state.Load() != tExited {
-			s += t.Name + "(" + stateName(t.state.Load()) + ") "
+		if st := t.state.Load(); st != tExited {
+			s += t.Name + "(" + stateName(st)
+			if st == tParked {
+				s += " at " + kindName[t.parkKind] + " " + siteStringNoFmt(t.parkSite)
+			}
+			s += ") "
 		}
 	}
 	return s
@@ -1135,6 +1142,27 @@ func (r *Run) ProfileSites() []int {
 		}
 	}
 	return out
+}
+
+// DebugSteps, when set, receives one line per operation start (debugging only).
+var DebugSteps *[]string
+
+func btoi(b bool) int {
+	if b {
+		return 1
+	}
+	return 0
+}
+
+// siteStringNoFmt is SiteString without fmt (usable by the scheduler).
+//
+//go:norace
+func siteStringNoFmt(site int) string {
+	if site < 0 || site >= len(interp.VerifSites) {
+		return "-"
+	}
+	v := &interp.VerifSites[site]
+	return v.File + ":" + itoa(v.Line) + " " + v.Func
 }
 
 // SiteString renders a site for reports.
